@@ -125,7 +125,8 @@ def run_property(mod, prop, tier, seed, t0, only=None):
     # ---- canary: must be refuted
     canary = [o for o in obligations if o["name"].startswith(prop + "/_canary")]
     canary_ok = any(o["status"] == "refuted" for o in canary)
-    if only is None and not canary_ok:
+    canary_unit_oos = any(u.startswith("_canary") for u, _ in oos_units) or any(r["unit"].startswith("_canary") and r["error"] for r in results)
+    if only is None and not canary_ok and not canary_unit_oos:
         checker_errors.append("canary: the deliberately false clause was not refuted")
     # ---- native: replays of refutations, witness cross-check, bounded stand-in
     known = load_known()
